@@ -185,6 +185,40 @@ def has_guard(p, small, big):
     return False
 
 
+def guard_sign(p, expr):
+    """'>', '>=', '<', '<=' when a guard of the path says that `expr` (a Lin) has that sign, else None.  A guard a < b says
+    k*(b - a) > 0 for every k > 0; its negation says b - a <= 0."""
+    from fractions import Fraction
+    ef = expr.freeze()
+    for (c, pol, _n, _r) in p.guards:
+        if not (isinstance(c, E) and c.op == 'lt'):
+            continue
+        try:
+            diff = lin_of(c.args[1]).add(lin_of(c.args[0]), -1)          # b - a  (a < b  <=>  diff > 0)
+        except NonLinear:
+            continue
+        if diff.is_const() or expr.is_const():
+            continue
+        # expr == k * diff ?
+        k = None
+        try:
+            (t0, c0) = next(iter(diff.terms.items()))
+            if t0 in expr.terms:
+                k = Fraction(expr.terms[t0]) / Fraction(c0)
+        except StopIteration:
+            k = None
+        if k is None or k == 0:
+            continue
+        scaled = Lin(diff.const * k, {t_: c_ * k for t_, c_ in diff.terms.items()})
+        if scaled != expr:
+            continue
+        pos = k > 0
+        if pol:
+            return '>' if pos else '<'
+        return '<=' if pos else '>='
+    return None
+
+
 def compare(d, ins, exp, zero, alts=(), floor_ops=None):
     """-> list of mismatch descriptions (empty = agrees)"""
     bad = []
@@ -211,6 +245,17 @@ def compare(d, ins, exp, zero, alts=(), floor_ops=None):
             inner = Lin(exp.single_atom()[1][0], dict(exp.single_atom()[1][1]))
             if got == inner and floor_ops is not None and has_guard(p, floor_ops[1], floor_ops[0]):
                 continue          # the floor written as a guarded subtraction: a - b only where a > b
+            if got == inner and guard_sign(p, inner) in ('>', '>='):
+                continue          # ... or written as `x if <x is positive> else 0` with any test that says so (0 < v for rate * v)
+        # min / max written as a comparison: `a if a < b else b`
+        sa_ = exp.single_atom()
+        if sa_ is not None and sa_[0] in ('min', 'max') and len(sa_[1]) == 2:
+            arms = [Lin(c0, dict(ts)) for (c0, ts) in sa_[1]]
+            if got in arms:
+                other = arms[1] if got == arms[0] else arms[0]
+                sgn = guard_sign(p, other.add(got, -1))          # sign of (other - got) on this path
+                if (sa_[0] == 'min' and sgn in ('>', '>=')) or (sa_[0] == 'max' and sgn in ('<', '<=')):
+                    continue
         # float slack idiom: x + 0.0
         bad.append(f'returns {got!r} where the instruction gives {exp!r}')
     if n_val == 0:
@@ -428,6 +473,7 @@ def check(tree, rep, tier='quick', seed=0):
     l3_lines_are_read_not_recomputed(tree, rep)
     from ..linerules import l5_widened_flags_read_through_their_line
     l5_widened_flags_read_through_their_line(tree, rep)
+    year_siblings(an, rep)
     # ---- R2.7 "enter here and on Form X, line N": the named line of the other form carries this line (both ends equal)
     n_carry = 0
     for (y, fr, line, tform, tline, text, where) in carries:
@@ -479,3 +525,58 @@ def check(tree, rep, tier='quick', seed=0):
 def _short(t):
     t = ' '.join(t.split())
     return t if len(t) < 110 else t[:107] + '...'
+
+
+
+def year_siblings(an, rep):
+    """R2.9 - years whose definitions of a line agreed on the baseline (sa/siblings.py, sa/data/year_siblings.json) still
+    agree: the sibling years are each other's reference for what the line computes."""
+    from ..siblings import signature, mirrors
+    frozen = load_data('year_siblings.json')['classes']
+    mir = mirrors(an)
+    n = 0
+    for key, groups in sorted(frozen.items()):
+        fname, _, lname = key.rpartition('.')
+        for grp in groups:
+            if len(grp) < 2:
+                continue
+            sigs = {}
+            for y in grp:
+                d = an.defs.get((y, fname, lname))
+                if d is not None:
+                    sigs[y] = signature(d, mir)
+            if len(sigs) < 2:
+                continue
+            n += 1
+            distinct = {}
+            for y, sg in sigs.items():
+                distinct.setdefault(sg, []).append(y)
+            if len(distinct) == 1:
+                rep.ob('R2.9', f'{key}/{"+".join(map(str, grp))}', True)
+                continue
+            # the odd one out is the smallest class (ties: the latest year)
+            odd_sig, odd_years = sorted(distinct.items(), key=lambda kv: (len(kv[1]), -max(kv[1])))[0]
+            ref_sig, ref_years = sorted(distinct.items(), key=lambda kv: (-len(kv[1]), min(kv[1])))[0]
+            only_odd = [' + '.join(c) for c in sorted(set(odd_sig[0]) - set(ref_sig[0]))[:2]]
+            only_ref = [' + '.join(c) for c in sorted(set(ref_sig[0]) - set(odd_sig[0]))[:2]]
+            reads_odd = sorted(set(odd_sig[2]) - set(ref_sig[2]))[:3]
+            reads_ref = sorted(set(ref_sig[2]) - set(odd_sig[2]))[:3]
+            if odd_sig[1] != ref_sig[1]:
+                only_odd.append('<refuses>' if odd_sig[1] else '<never refuses>')
+            d = an.defs[(odd_years[0], fname, lname)]
+            rep.ob('R2.9', f'{key}/{"+".join(map(str, grp))}', False,
+                   f'{key}: the {odd_years} definition no longer computes what its sibling years {ref_years} compute (they agreed on the baseline). '
+                   f'Only in {odd_years}: answers made of {only_odd}, reads {reads_odd}; only in {ref_years}: answers made of {only_ref}, reads {reads_ref}', d.where)
+    rep.floor('(line, class of sibling years) pairs compared', n, 650)
+    return n
+
+
+def regenerate_siblings():
+    """Developer helper (never used by a check): rewrite sa/data/year_siblings.json from the current tree."""
+    import json
+    from ..src import Tree
+    from ..siblings import classes
+    an = get_analysis(Tree())
+    json.dump({'comment': 'classes of tax years in which form.line has the same order-free signature (sa/siblings.py) on the confirmed baseline; '
+                          'regenerate with sa.checks.c02.regenerate_siblings() after reading a deliberate change', 'classes': classes(an)},
+              open(os.path.join(DATA, 'year_siblings.json'), 'w'), indent=0, sort_keys=True)
